@@ -266,7 +266,7 @@ PROPS['C05'] = {
 }
 
 PROPS['C08'] = {
-    'modules': ['c08', 'fattype', ('c10', ['R10.2']), ('c17', ['T3b'])],
+    'modules': ['c08', 'fattype', ('c10', ['R10.2']), ('c17', ['T3b', 'T3'])],
     'level': 'other',
     'quick_configs': ['default'],
     'thorough_configs': ALL,
@@ -495,7 +495,7 @@ PROPS['C03'] = {
 }
 
 PROPS['C04'] = {
-    'modules': ['c04', 'fattype', ('c14', ['P2', 'P3'])],
+    'modules': ['c04', 'fattype', ('c14', ['P2', 'P3']), ('siblings', ['SB1', 'SB2'])],
     'level': 'other',
     'quick_configs': ['default'],
     'thorough_configs': ALL,
@@ -523,7 +523,7 @@ PROPS['C04'] = {
 }
 
 PROPS['C11'] = {
-    'modules': ['c11', ('c10', ['R10.4']), ('c03', ['R3.8'])],
+    'modules': ['c11', ('c10', ['R10.4']), ('c03', ['R3.8']), ('c20', ['W1', 'W4'])],
     'level': 'other',
     'quick_configs': ['default'],
     'thorough_configs': ALL,
@@ -575,10 +575,10 @@ PROPS['C18'] = {
 }
 
 PROPS['C19'] = {
-    'modules': ['c19'],
+    'modules': ['c19', ('c17', ['T2n'])],
     'level': 'other',
-    'quick_configs': ['default'],
-    'thorough_configs': ['default'],
+    'quick_configs': ['default', 'noalloc'],
+    'thorough_configs': ['default', 'noalloc'],
     'controls': [],
     'floors': {'default': {'R19.1': 1000, 'R19.1b': 2, 'R19.3': 2}},
     'rule_text': 'one obligation per fatfs function body per configuration pair (default vs no-alloc, default vs '
